@@ -287,7 +287,16 @@ struct RefsWorld : World {
 							uintptr_t r; { Sut su; r = obj[o]->addref(); }
 							if (!r) continue;
 							bool ok;
-							if (items) { char nm[8]; snprintf(nm, sizeof nm, "n%d", k); Sut su; ok = ia->append(obj[o], (x & 256) ? nm : 0) != 0; }
+							if (items) {
+								// names: none, short (inline), 40 characters (allocated, optionally with the allocation failing), 70000 characters (refused)
+								static const std::string longname(70000, 'n'); char nm[48]; snprintf(nm, sizeof nm, "n%d", k);
+								unsigned nk = (x >> 8) & 7; const char *name = nk < 2 ? 0 : nk < 5 ? nm : nk < 7 ? "a-name-of-forty-characters-for-this-item" : longname.c_str();
+								uint64_t fn = (nk == 6 || (x & 0x4000)) ? 1 + ((x >> 16) & 1) : 0; bool fired;
+								{ Sut su(fn); ok = ia->append(obj[o], name) != 0; fired = g.fired; }
+								if (nk == 7) { st.hit("probe:item_name_refused"); if (ok) fail("accepted-invalid", "item_array accepted a name of 70000 characters"); }
+								if (fired) st.hit("fault:allocfail");
+								if (!ok && !fired && nk != 7) fail("refused-valid", "item_array append refused without allocation fault");
+							}
 							else { long n = ra2->length(); Sut su; ok = ra2->insert((long) (x % (uint32_t) (n + 1)), obj[o]); }
 							if (ok) { ++held[o]; st.hit(items ? "probe:item_array_entry_added" : "probe:reference_array_entry_added"); } else { Sut su; obj[o]->unref(); }
 						} else if (act == 3 && !items) {
